@@ -36,7 +36,7 @@ for pid in ALL:
         "evidence_file": "/verif/evidence/%s.json" % pid,
         "replay_cmd_template": "./check %s --replay {path}" % pid,
         "engine": c["engine"],
-        "level_claimed": {"category": c.get("category", "exploration"), "text": c["text"], "design_ref": c.get("design_ref", "DESIGN.md section 5, " + pid)},
+        "level_claimed": {"category": c.get("category", "exploration"), "text": c["text"], "design_ref": c.get("design_ref", "DESIGN.md section 5 (plan), sections 10 and 12 (corrections, as built), " + pid)},
         "level_note": c["note"],
         "technique": c["technique"],
     })
